@@ -27,6 +27,8 @@ Known-finding triggers (never generated in the main stream, see known_findings.d
                association is moved up and an invalid 'ASSOCIATE ()' is left behind (do_merge_associates)
   merge-subscript-dep nested selector whose *subscript* is an associate name of an enclosing block: the
                association is moved next to the name it depends on (do_merge_associates)
+  merge-rescope-selector selector that mentions a variable whose name is also an associate name of the same
+               ASSOCIATE statement: after do_merge_associates the selector is scoped in the block itself
 The main stream never generates these triggers (props/c29.py does not run the hazard sub-streams any more; they
 only serve to produce the minimal replay files, see ``minimal_cases``).
 Documented as unsupported by loki (warning 'Bounds shifts through association is currently not supported')
@@ -37,11 +39,12 @@ from hypothesis import strategies as st
 from .model import var, lit, decl, routine, module
 from . import gen as B
 
-HAZARDS = ['sect-lb', 'sect-stride', 'open-range', 'merge-shadow', 'merge-loopdep', 'merge-empties-inner', 'merge-subscript-dep']
+HAZARDS = ['sect-lb', 'sect-stride', 'open-range', 'merge-shadow', 'merge-loopdep', 'merge-empties-inner', 'merge-subscript-dep',
+           'merge-rescope-selector']
 # triggers of listed known findings that the main stream must not generate (exclusion by construction; remove a tag
 # once its fix is committed and its known: line has become a fixed: line)
 EXCLUDED_TRIGGERS = {'sect-lb', 'sect-stride', 'open-range', 'merge-shadow', 'merge-loopdep', 'merge-empties-inner',
-                     'merge-subscript-dep'}
+                     'merge-subscript-dep', 'merge-rescope-selector'}
 
 STMT_PROFILE = B.profile(print=False, comments=False, internal=False, real_class='dyadic', max_depth=3,
                          max_stmts=4, expr_depth=2, n_helpers=1, stmtfunc=False, inquiry=True)
@@ -421,6 +424,11 @@ def pick_selector(g, env, a):
     if not c:
         return None
     n = g.pick(c)
+    if k == 'section':
+        # sections of rank-2 arrays (rank-reducing or not) would otherwise be rare among the many rank-1 components
+        c2 = [m for m in c if len(env.vars[m]['dims']) > 1]
+        if c2 and g.chance(45):
+            n = g.pick(c2)
     if k == 'elem' and any(vv.get('alias_n') and vv.get('aname') for vv in se.vars.values()):
         # prefer an array that can be subscripted by an associate name denoting n
         lo, hi = se.nval_range
@@ -555,6 +563,20 @@ def gen_assoc_block(g, env, depth, nstmts, a, must_nest=0):
         new[name] = ent
     if not pairs:
         return None
+    if a.merge_safe and 'merge-rescope-selector' not in a.allow:
+        # known finding merge-rescope-selector: do_merge_associates re-scopes the selectors of every block into the
+        # block itself, so a selector that mentions a variable with the name of an associate name of the SAME
+        # statement (`associate (a => b(:2), z => a(4))`, a(4) is the outer a) is later resolved through that name.
+        # (no draws involved: the fresh name replaces the shadowing one in place)
+        used = set()
+        for _, sel in pairs:
+            mentioned_names(sel, used)
+        for pr in pairs:
+            if pr[0] in used:
+                nm = a.fresh()
+                new = {(nm if k == pr[0] else k): v for k, v in new.items()}
+                pr[0] = nm
+                a.avoided.append('merge-rescope-selector')
     parent_bid = a.block_stack[-1] if a.block_stack else None
     if a.merge_safe and parent_bid is not None and 'merge-empties-inner' not in a.allow:
         # do_merge_associates moves every association that does not depend on the direct parent's names; a nested
@@ -749,6 +771,12 @@ def hazard_block(g, env, a, tag):
                  [['assign', var('zq'), ['b', '+', lit(v2), var('xi0')]], ['assign', var('zk'), ['b', '+', var('zk'), ['i', 1]]]]]
         blk = ['assoc', [['hzs', var('n')], ['zh', B.elem('hza', lit(g.i(0, 4)))]], [['assign', var('zh'), lit(v1)], inner]]
         return [['assign', var('hzs'), lit(1)], blk] + [obs('hzb', i) for i in range(1, 7)]
+    if tag == 'merge-rescope-selector':
+        # `zq => hzs` denotes the local variable hzs although `hzs` is also an associate name of the same statement
+        blk = ['assoc', [['hzs', B.elem('hzb', lit(g.i(1, 6)))], ['zq', var('hzs')]],
+               [['assign', var('zq'), ['b', '+', lit(v2), var('xi0')]], ['assign', var('hzs'), lit(v1)]]]
+        return [['assign', var('hzs'), lit(1)], blk, ['assign', var('yi0'), ['b', '+', var('yi0'), ['b', '*', ['i', 3], var('hzs')]]]] + \
+            [obs('hzb', i) for i in range(1, 7)]
     raise ValueError(tag)
 
 
@@ -756,6 +784,9 @@ def hazard_block(g, env, a, tag):
 def gen_xforms(g, stream, hazard):
     if hazard in ('sect-lb', 'sect-stride', 'open-range'):
         return [{'entry': 'do_resolve_associates', 'start_depth': 0}]
+    if hazard == 'merge-rescope-selector':
+        return [{'entry': 'AssociatesTransformation', 'resolve_associates': True, 'merge_associates': True,
+                 'start_depth': 0, 'max_parents': None}]
     if hazard in ('merge-shadow', 'merge-loopdep', 'merge-empties-inner', 'merge-subscript-dep'):
         return [{'entry': 'do_merge_associates', 'max_parents': None}]
 
